@@ -706,7 +706,7 @@ def conelp(c, G, h, dims = None, A = None, b = None, primalstart = None,
 
     # ts = min{ t | s + t*e >= 0 }
     ts = misc.max_step(s, dims)
-    if ts >= 0 and primalstart:
+    if ts >= 0 and primalstart and cdim > 0:
         raise ValueError("initial s is not positive")
 
 
@@ -735,7 +735,7 @@ def conelp(c, G, h, dims = None, A = None, b = None, primalstart = None,
 
     # tz = min{ t | z + t*e >= 0 }
     tz = misc.max_step(z, dims)
-    if tz >= 0 and dualstart:
+    if tz >= 0 and dualstart and cdim > 0:
         raise ValueError("initial z is not positive")
 
     nrms = misc.snrm2(s, dims)
